@@ -420,6 +420,475 @@ example : fuse ⟨1, none, 1⟩ ⟨0, some 6, 2⟩ = ⟨1, some 7, 2⟩ := by de
 example : fuse ⟨5, some 50, 1⟩ ⟨2, some 11, 2⟩ = ⟨7, some 16, 2⟩ := by decide
 example : (List.range 5).map (chainAt 8 ⟨1, none, 1⟩ ⟨0, some 6, 2⟩) = [some 1, some 3, some 5, none, none] := by decide
 
+
+/-! ### index tuples (what `_optimize_slices` passes to `fuse_slice`) -/
+
+theorem push_ok {pre : List Ix} {res : Res} {r : List Ix} (h : res.push pre = .ok r) :
+    ∃ r', res = .ok r' ∧ r = pre ++ r' := by
+  cases res with
+  | ok r' => simp only [Res.push, Res.ok.injEq] at h; exact ⟨r', rfl, h.symm⟩
+  | notImplemented => simp [Res.push] at h
+  | indexError => simp [Res.push] at h
+
+theorem splitNones_spec (b : List Ix) :
+    b = List.replicate (splitNones b).1 .newaxis ++ (splitNones b).2 := by
+  induction b with
+  | nil => simp [splitNones]
+  | cons y t ih =>
+    cases y <;> simp [splitNones, List.replicate_succ]
+    exact ih
+
+theorem fuseTuple_nil (a : List Ix) : fuseTuple a [] = .ok a := by
+  induction a with
+  | nil => rfl
+  | cons x a ih => simp [fuseTuple, ih, Res.push]
+
+theorem consOpt_none_right (p : Option Nat) : consOpt p none = none := by
+  cases p <;> rfl
+
+theorem at_eq_atU (s : Sl) (d j : Nat) :
+    s.at d j = (s.atU j).bind fun p => if p < d then some p else none := by
+  unfold Sl.at Sl.atU
+  simp only
+  cases hs : s.stop with
+  | none => by_cases h : s.start + s.step * j < d <;> simp [h]
+  | some t =>
+    by_cases h : s.start + s.step * j < d <;> by_cases h2 : s.start + s.step * j < t <;> simp [h, h2]
+
+theorem chainAt_eq (d : Nat) (s t : Sl) (j : Nat) : chainAt d s t j = (t.atU j).bind (s.at d) := by
+  unfold chainAt Sl.atU
+  simp only
+  cases ht : t.stop with
+  | none => simp
+  | some u => by_cases h : t.start + t.step * j < u <;> simp [h]
+
+
+/-- the entries of `b` left over when `a` is exhausted index the remaining source axes directly -/
+theorem applyB_tail (b : List Ix) : ∀ (dims c : List Nat),
+    applyB dims b c = (applyU b c).bind (applyB dims []) := by
+  induction b with
+  | nil => intro dims c; simp [applyU]
+  | cons y t ih =>
+    intro dims c
+    cases y with
+    | int n =>
+      cases dims with
+      | nil =>
+        cases hU : applyU t c <;> simp [applyB, applyU, hU, consOpt, inBounds]
+      | cons d ds =>
+        cases hU : applyU t c with
+        | none => simp [applyB, applyU, hU, consOpt, ih ds c]
+        | some k =>
+          by_cases h1 : n < d <;> by_cases h2 : inBounds ds k = true <;>
+            simp [applyB, applyU, hU, consOpt, ih ds c, inBounds, h1, h2]
+    | newaxis =>
+      cases c with
+      | nil => simp [applyB, applyU]
+      | cons ci c' => by_cases h : ci = 0 <;> simp [applyB, applyU, h, ih dims c']
+    | sl s =>
+      cases c with
+      | nil => simp [applyB, applyU]
+      | cons ci c' =>
+        cases dims with
+        | nil =>
+          cases hU : applyU t c' <;> cases hA : s.atU ci <;> simp [applyB, applyU, hU, hA, consOpt, inBounds]
+        | cons d ds =>
+          cases hU : applyU t c' with
+          | none => simp [applyB, applyU, hU, consOpt_none_right, ih ds c']
+          | some k =>
+            cases hA : s.atU ci with
+            | none => simp [applyB, applyU, hU, hA, consOpt, at_eq_atU]
+            | some p =>
+              by_cases h1 : p < d <;> by_cases h2 : inBounds ds k = true <;>
+                simp [applyB, applyU, hU, hA, consOpt, ih ds c', inBounds, h1, h2, at_eq_atU]
+    | full =>
+      cases c with
+      | nil => simp [applyB, applyU]
+      | cons ci c' =>
+        cases dims with
+        | nil =>
+          cases hU : applyU t c' <;> cases hA : fullSl.atU ci <;> simp [applyB, applyU, hU, hA, consOpt, inBounds]
+        | cons d ds =>
+          cases hU : applyU t c' with
+          | none => simp [applyB, applyU, hU, consOpt_none_right, ih ds c']
+          | some k =>
+            cases hA : fullSl.atU ci with
+            | none => simp [applyB, applyU, hU, hA, consOpt, at_eq_atU]
+            | some p =>
+              by_cases h1 : p < d <;> by_cases h2 : inBounds ds k = true <;>
+                simp [applyB, applyU, hU, hA, consOpt, ih ds c', inBounds, h1, h2, at_eq_atU]
+
+
+theorem at_isSome (s : Sl) (d m : Nat) (h : (s.at d m).isSome = true) :
+    s.at d m = some (fuseInt s m) ∧ fuseInt s m < d := by
+  unfold Sl.at at h ⊢
+  simp only at h ⊢
+  have e : s.start + s.step * m = fuseInt s m := by simp [fuseInt, Nat.mul_comm]
+  rw [e] at h ⊢
+  cases hs : s.stop with
+  | none =>
+    rw [hs] at h
+    by_cases h1 : fuseInt s m < d
+    · simp [h1]
+    · simp [h1] at h
+  | some t =>
+    rw [hs] at h
+    by_cases h1 : fuseInt s m < d <;> by_cases h2 : fuseInt s m < t
+    · simp [h1, h2]
+    · simp [h1, h2] at h
+    · simp [h1, h2] at h
+    · simp [h1, h2] at h
+
+theorem bind_none_fun {α β : Type} (o : Option α) (f : α → Option β) (hf : ∀ k, f k = none) :
+    o.bind f = none := by
+  cases o with
+  | none => rfl
+  | some k => exact hf k
+
+theorem fullSl_atU (j : Nat) : fullSl.atU j = some j := by
+  simp [Sl.atU, fullSl]
+
+/-- leading `None`s of `b` are copied: both sides ask for coordinate 0 on those axes -/
+theorem nones_prefix (k : Nat) (dims : List Nat) (zr yb : List Ix) (F : List Nat → Option (List Nat))
+    (h0 : ∀ c, applyB dims zr c = (applyU yb c).bind F) :
+    ∀ c, applyB dims (List.replicate k .newaxis ++ zr) c = (applyU (List.replicate k .newaxis ++ yb) c).bind F := by
+  induction k with
+  | zero => simpa using h0
+  | succ k ih =>
+    intro c
+    cases c with
+    | nil => cases dims <;> simp [List.replicate_succ, applyB, applyU]
+    | cons ci c' =>
+      by_cases h : ci = 0 <;> cases dims <;> simp [List.replicate_succ, applyB, applyU, h, ih c']
+
+/-- one paired step of the walk -/
+theorem pair_step (x y z : Ix) (a b' r' : List Ix) (dims : List Nat)
+    (hx : x.isInt = false)
+    (hok : (match x.slice?, dims with
+            | some s, d :: _ => decide (0 < s.step) && (match y with | .int m => (s.at d m).isSome | _ => true)
+            | _, _ => true) = true)
+    (hz : fuseIx x y = some z)
+    (ih : ∀ c, applyB (if x = .newaxis then dims else dims.tail) r' c
+             = (applyU b' c).bind (applyB (if x = .newaxis then dims else dims.tail) a)) :
+    ∀ c, applyB dims (z :: r') c = (applyU (y :: b') c).bind (applyB dims (x :: a)) := by
+  intro c
+  -- the slice/slice and slice/int steps for a normalised slice `s` of `a`
+  have slsl : ∀ (s t : Sl) (d : Nat) (ds : List Nat), 0 < s.step →
+      (∀ c, applyB ds r' c = (applyU b' c).bind (applyB ds a)) →
+      ∀ ci c', consOpt ((fuse s t).at d ci) (applyB ds r' c')
+        = (consOpt (t.atU ci) (applyU b' c')).bind
+            (fun kk => match kk with | k :: ks => consOpt (s.at d k) (applyB ds a ks) | [] => none) := by
+    intro s t d ds hs ih' ci c'
+    rw [← fuse_slice_index_map d s t ci hs, chainAt_eq, ih' c']
+    cases hA : t.atU ci with
+    | none => simp [consOpt]
+    | some k =>
+      cases hU : applyU b' c' with
+      | none => simp [consOpt]
+      | some ks => simp [consOpt]
+  cases x with
+  | int n => simp [Ix.isInt] at hx
+  | newaxis =>
+    cases y <;> simp [fuseIx, Ix.slice?] at hz
+    subst hz
+    simp only [if_true] at ih
+    cases c with
+    | nil => cases dims <;> simp [applyB, applyU]
+    | cons ci c' =>
+      cases hU : applyU b' c' with
+      | none => by_cases h : ci = 0 <;> cases dims <;> simp [applyB, applyU, fullSl_atU, consOpt, hU, h, ih c']
+      | some ks => by_cases h : ci = 0 <;> cases dims <;> simp [applyB, applyU, fullSl_atU, consOpt, hU, h, ih c']
+  | sl s =>
+    have hne : ((Ix.sl s) = Ix.newaxis) = False := by simp
+    simp only [hne, if_false, List.tail] at ih
+    cases dims with
+    | nil =>
+      have hr : (applyU (y :: b') c).bind (applyB [] (Ix.sl s :: a)) = none :=
+        bind_none_fun _ _ (fun k => by simp [applyB])
+      rw [hr]
+      cases y <;> simp [fuseIx, Ix.slice?] at hz <;> subst hz <;> simp [applyB]
+    | cons d ds =>
+      simp only [Ix.slice?] at hok ih
+      cases y with
+      | int m =>
+        simp [fuseIx, Ix.slice?] at hz; subst hz
+        simp at hok
+        obtain ⟨hat, hlt⟩ := at_isSome s d m hok.2
+        cases hU : applyU b' c with
+        | none => simp [applyB, applyU, hU, consOpt, ih c, hlt]
+        | some ks => simp [applyB, applyU, hU, consOpt, ih c, hlt, hat]
+      | sl t =>
+        simp [fuseIx, Ix.slice?] at hz; subst hz
+        have hs : 0 < (s).step := by simpa using hok
+        cases c with
+        | nil => simp [applyB, applyU]
+        | cons ci c' =>
+          have key := slsl s t d ds hs ih ci c'
+          simp only [applyB, applyU]; rw [key]
+          cases hq : consOpt (t.atU ci) (applyU b' c') with
+          | none => rfl
+          | some kk => cases kk <;> simp [applyB]
+      | full =>
+        simp [fuseIx, Ix.slice?] at hz; subst hz
+        have hs : 0 < (s).step := by simpa using hok
+        cases c with
+        | nil => simp [applyB, applyU]
+        | cons ci c' =>
+          have key := slsl s fullSl d ds hs ih ci c'
+          simp only [applyB, applyU]; rw [key]
+          cases hq : consOpt (fullSl.atU ci) (applyU b' c') with
+          | none => rfl
+          | some kk => cases kk <;> simp [applyB]
+      | newaxis => simp [fuseIx, Ix.slice?] at hz
+  | full =>
+    have hne : ((Ix.full) = Ix.newaxis) = False := by simp
+    simp only [hne, if_false, List.tail] at ih
+    cases dims with
+    | nil =>
+      have hr : (applyU (y :: b') c).bind (applyB [] (Ix.full :: a)) = none :=
+        bind_none_fun _ _ (fun k => by simp [applyB])
+      rw [hr]
+      cases y <;> simp [fuseIx, Ix.slice?] at hz <;> subst hz <;> simp [applyB]
+    | cons d ds =>
+      simp only [Ix.slice?] at hok ih
+      cases y with
+      | int m =>
+        simp [fuseIx, Ix.slice?] at hz; subst hz
+        simp at hok
+        obtain ⟨hat, hlt⟩ := at_isSome fullSl d m hok.2
+        cases hU : applyU b' c with
+        | none => simp [applyB, applyU, hU, consOpt, ih c, hlt]
+        | some ks => simp [applyB, applyU, hU, consOpt, ih c, hlt, hat]
+      | sl t =>
+        simp [fuseIx, Ix.slice?] at hz; subst hz
+        have hs : 0 < (fullSl).step := by simpa using hok
+        cases c with
+        | nil => simp [applyB, applyU]
+        | cons ci c' =>
+          have key := slsl fullSl t d ds hs ih ci c'
+          simp only [applyB, applyU]; rw [key]
+          cases hq : consOpt (t.atU ci) (applyU b' c') with
+          | none => rfl
+          | some kk => cases kk <;> simp [applyB]
+      | full =>
+        simp [fuseIx, Ix.slice?] at hz; subst hz
+        have hs : 0 < (fullSl).step := by simpa using hok
+        cases c with
+        | nil => simp [applyB, applyU]
+        | cons ci c' =>
+          have key := slsl fullSl fullSl d ds hs ih ci c'
+          simp only [applyB, applyU]; rw [key]
+          cases hq : consOpt (fullSl.atU ci) (applyU b' c') with
+          | none => rfl
+          | some kk => cases kk <;> simp [applyB]
+      | newaxis => simp [fuseIx, Ix.slice?] at hz
+
+
+/-- **fuse_tuple_index_map.** For every source shape `dims`, all index tuples `a`, `b` of integers, slices and `None`
+    (any lengths, `None`s anywhere) for which `fuse_slice(a, b)` returns `r`, and every coordinate `c`: element `c` of
+    `x[a][b]` and element `c` of `x[r]` are the same element of `x`, and `c` is outside one exactly when it is outside
+    the other — the fused `getitem` task returns the block the chained `getitem`s return, shape included. -/
+theorem fuse_tuple_index_map (a : List Ix) : ∀ (dims : List Nat) (b r : List Ix) (c : List Nat),
+    fuseTuple a b = .ok r → pairsOK dims a b = true →
+    applyB dims r c = (applyU b c).bind (applyB dims a) := by
+  induction a with
+  | nil =>
+    intro dims b r c h _
+    simp only [fuseTuple, Res.ok.injEq] at h
+    subst h
+    exact applyB_tail b dims c
+  | cons x a ih =>
+    intro dims b r c h hok
+    by_cases hcond : (x.isInt || b.isEmpty) = true
+    · simp only [fuseTuple, hcond, if_true] at h
+      obtain ⟨r', hr', rfl⟩ := push_ok h
+      simp only [pairsOK, hcond, if_true] at hok
+      cases b with
+      | nil =>
+        rw [fuseTuple_nil] at hr'
+        injection hr' with hr'
+        subst hr'
+        simp [applyU]
+      | cons y b' =>
+        have hx : x.isInt = true := by simpa using hcond
+        cases x with
+        | int n =>
+          have hne : (Ix.int n = Ix.newaxis) = False := by simp
+          simp only [hne, if_false] at hok
+          cases dims with
+          | nil =>
+            rw [bind_none_fun _ _ (fun k => by simp [applyB])]
+            simp [applyB]
+          | cons d ds =>
+            have h1 := ih ds (y :: b') r' c hr' hok
+            cases hU : applyU (y :: b') c with
+            | none => simp [applyB, h1, hU, consOpt]
+            | some k => simp [applyB, h1, hU]
+        | sl s => simp [Ix.isInt] at hx
+        | full => simp [Ix.isInt] at hx
+        | newaxis => simp [Ix.isInt] at hx
+    · simp only [fuseTuple, hcond] at h
+      simp only [pairsOK, hcond] at hok
+      have hx : x.isInt = false := by
+        cases hh : x.isInt with
+        | false => rfl
+        | true => simp [hh] at hcond
+      have hspec := splitNones_spec b
+      revert h hok hspec
+      cases splitNones b with
+      | mk k rest =>
+        cases rest with
+        | nil => intro h _ _; simp at h
+        | cons y b' =>
+          intro h hok hspec
+          simp only at h hok hspec
+          cases hz : fuseIx x y with
+          | none => simp [hz] at h
+          | some z =>
+            simp only [hz] at h
+            obtain ⟨r', hr', rfl⟩ := push_ok h
+            rw [hspec, List.append_assoc]
+            apply nones_prefix
+            intro c'
+            cases x with
+            | int n => simp [Ix.isInt] at hx
+            | newaxis =>
+              simp only at hok
+              exact pair_step .newaxis y z a b' r' dims hx (by simp [Ix.slice?]) hz
+                (fun c => by simpa using ih dims b' r' c hr' hok) c'
+            | sl s =>
+              simp only [Bool.false_eq_true, if_false, Bool.and_eq_true] at hok
+              exact pair_step (.sl s) y z a b' r' dims hx hok.1 hz
+                (fun c => by simpa using ih dims.tail b' r' c hr' hok.2) c'
+            | full =>
+              simp only [Bool.false_eq_true, if_false, Bool.and_eq_true] at hok
+              exact pair_step .full y z a b' r' dims hx hok.1 hz
+                (fun c => by simpa using ih dims.tail b' r' c hr' hok.2) c'
+
+
+theorem lt_div_iff (j n k : Nat) (hk : 0 < k) : j < n / k ↔ (j + 1) * k ≤ n := by
+  rw [Nat.lt_iff_add_one_le, Nat.le_div_iff_mul_le hk]
+
+theorem at_isSome_iff_len (s : Sl) (d j : Nat) (hs : 0 < s.step) :
+    (s.at d j).isSome = true ↔ j < s.len d := by
+  have hne : s.step ≠ 0 := by omega
+  have hm : s.step * j = j * s.step := Nat.mul_comm _ _
+  have hsucc : (j + 1) * s.step = j * s.step + s.step := Nat.succ_mul _ _
+  unfold Sl.at Sl.len
+  simp only [hne, if_false]
+  cases hst : s.stop with
+  | none =>
+    simp only
+    rw [lt_div_iff _ _ _ hs]
+    by_cases h : s.start + s.step * j < d
+    · simp [h]; omega
+    · simp [h]; omega
+  | some t =>
+    simp only
+    rw [lt_div_iff _ _ _ hs]
+    by_cases h : s.start + s.step * j < d <;> by_cases h2 : s.start + s.step * j < t
+    · simp [h, h2]; omega
+    · simp [h, h2]; omega
+    · simp [h, h2]; omega
+    · simp [h, h2]; omega
+
+
+/-- `applyB dims a` is defined exactly on the coordinates inside `x[a]` -/
+theorem applyB_isSome_iff (a : List Ix) : ∀ (dims sh k : List Nat), stepsPos a = true → shapeIx dims a = some sh →
+    ((applyB dims a k).isSome = true ↔ inBounds sh k = true) := by
+  induction a with
+  | nil =>
+    intro dims sh k _ hsh
+    simp only [shapeIx, Option.some.injEq] at hsh
+    subst hsh
+    by_cases h : inBounds dims k = true <;> simp [applyB, h]
+  | cons x a ih =>
+    intro dims sh k hp hsh
+    cases x with
+    | int n =>
+      cases dims with
+      | nil => simp [shapeIx] at hsh
+      | cons d ds =>
+        simp only [stepsPos] at hp
+        by_cases hn : n < d
+        · simp only [shapeIx, hn, if_true] at hsh
+          have := ih ds sh k hp hsh
+          cases hA : applyB ds a k with
+          | none => simp [applyB, hn, hA, consOpt] at this ⊢; exact this
+          | some p => simp [applyB, hn, hA, consOpt] at this ⊢; exact this
+        · simp [shapeIx, hn] at hsh
+    | newaxis =>
+      simp only [stepsPos] at hp
+      simp only [shapeIx, Option.map_eq_some_iff] at hsh
+      obtain ⟨sh', hsh', rfl⟩ := hsh
+      cases k with
+      | nil => cases dims <;> simp [applyB, inBounds]
+      | cons ki k' =>
+        have := ih dims sh' k' hp hsh'
+        by_cases h0 : ki = 0
+        · cases dims <;> simp [applyB, inBounds, h0, this]
+        · have : ¬ ki < 1 := by omega
+          cases dims <;> simp [applyB, inBounds, h0]
+    | sl s =>
+      simp only [stepsPos, Bool.and_eq_true, decide_eq_true_eq] at hp
+      cases dims with
+      | nil => simp [shapeIx] at hsh
+      | cons d ds =>
+        simp only [shapeIx, Option.map_eq_some_iff] at hsh
+        obtain ⟨sh', hsh', rfl⟩ := hsh
+        cases k with
+        | nil => simp [applyB, inBounds]
+        | cons ki k' =>
+          have h1 := ih ds sh' k' hp.2 hsh'
+          have h2 := at_isSome_iff_len s d ki hp.1
+          cases hA : applyB ds a k' <;> cases hB : s.at d ki <;>
+            simp [applyB, inBounds, consOpt, hA, hB] at h1 h2 ⊢ <;> simp [h1, h2]
+    | full =>
+      simp only [stepsPos] at hp
+      cases dims with
+      | nil => simp [shapeIx] at hsh
+      | cons d ds =>
+        simp only [shapeIx, Option.map_eq_some_iff] at hsh
+        obtain ⟨sh', hsh', rfl⟩ := hsh
+        cases k with
+        | nil => simp [applyB, inBounds]
+        | cons ki k' =>
+          have h1 := ih ds sh' k' hp hsh'
+          have h2 := at_isSome_iff_len fullSl d ki (by decide)
+          cases hA : applyB ds a k' <;> cases hB : fullSl.at d ki <;>
+            simp [applyB, inBounds, consOpt, hA, hB] at h1 h2 ⊢ <;> simp [h1, h2]
+
+
+theorem fuse_tuple_index_map_bounded (dims sh : List Nat) (a b r : List Ix) (c : List Nat)
+    (hp : stepsPos a = true) (hsh : shapeIx dims a = some sh)
+    (h : fuseTuple a b = .ok r) (hok : pairsOK dims a b = true) :
+    applyB dims r c = (applyB sh b c).bind (applyB dims a) := by
+  rw [fuse_tuple_index_map a dims b r c h hok, applyB_tail b sh c]
+  cases hU : applyU b c with
+  | none => rfl
+  | some k =>
+    have hiff := applyB_isSome_iff a dims sh k hp hsh
+    by_cases hb : inBounds sh k = true
+    · simp [applyB, hb]
+    · have : applyB dims a k = none := by
+        cases hA : applyB dims a k with
+        | none => rfl
+        | some p => rw [hA] at hiff; exact absurd (hiff.mp rfl) hb
+      simp [applyB, hb, this]
+
+/-- `x[1:, 3, :][None, :6:2, :]` fuses to `x[None, 1:7:2, 3, 0:]`: the new axis is copied, the integer stays, the
+    slices fuse -/
+example : fuseTuple [.sl ⟨1, none, 1⟩, .int 3, .full] [.newaxis, .sl ⟨0, some 6, 2⟩, .full]
+    = .ok [.newaxis, .sl ⟨1, some 7, 2⟩, .int 3, .sl ⟨0, none, 1⟩] := by decide
+example : pairsOK [9, 5, 4] [.sl ⟨1, none, 1⟩, .int 3, .full] [.newaxis, .sl ⟨0, some 6, 2⟩, .full] = true := by decide
+example : applyB [9, 5, 4] [.newaxis, .sl ⟨1, some 7, 2⟩, .int 3, .sl ⟨0, none, 1⟩] [0, 2, 1] = some [5, 3, 1] := by decide
+/-- a new axis of `a` can only be met by a full slice; an integer or a partial slice there is `NotImplementedError` -/
+example : fuseTuple [.newaxis, .full] [.int 0, .full] = .notImplemented := by decide
+example : fuseTuple [.newaxis, .full] [.full, .sl ⟨1, none, 1⟩] = .ok [.newaxis, .sl ⟨1, none, 1⟩] := by decide
+/-- a `b` that ends in `None` while `a` still has entries runs off the end of `b` (Python: `IndexError`); dask's
+    full-length index tuples never have this form -/
+example : fuseTuple [.full, .full] [.sl ⟨0, some 3, 1⟩, .newaxis] = .indexError := by decide
+
 end FuseSlice
 
 end Dask.C25
